@@ -50,6 +50,13 @@ def yank (k : KillRing) : Except Panic (KillRing × Option Text) :=
     | none => .error .panic
     | some s => .ok ({ k with lastAction := .yank (blen s) }, some s)
 
+/-- the second half of `KillRing::yank_n` (`yank_n n` = `yank`, then the size recorded for a following
+    yank-pop is that of the `n` copies `edit_yank` inserts) -/
+def yankCount (k : KillRing) (n : Nat) : KillRing :=
+  match k.lastAction with
+  | .yank size => { k with lastAction := .yank (size * n) }
+  | _ => k
+
 /-- `KillRing::yank_pop` -/
 def yankPop (k : KillRing) : Except Panic (KillRing × Option (Nat × Text)) :=
   match k.lastAction with
